@@ -383,6 +383,17 @@ def dilated_product_range (P : Params) (d : OpDesc) : R := do
   return inRange P.dilProd (k.areaW * k.areaH)
 
 def weights_type (P : Params) (d : OpDesc) : R := do return (← need (weights d)).elementSize == 1
+def weights_symmetric (P : Params) (d : OpDesc) : R := do
+  let i ← need (ifm d)
+  let w ← need (weights d)
+  if i.dtype == n!"int8" || i.dtype == n!"int16" then
+    match w.quant with
+    | some q => match q.zps with
+      | some z => return z.all (· == 0)
+      | none => return false          -- `np.all(None == 0)` is False
+    | none => return true
+  else return true
+
 def weights_const (P : Params) (d : OpDesc) : R := do return (← need (weights d)).hasValues
 
 /-- `np.amax(np.sum(np.absolute(values - zero_point), axis=(0, 1, 2))) <= weights_limit` -/
@@ -951,7 +962,7 @@ def supPreds : List (Name × (Params → OpDesc → R)) :=
     (n!"constraint_batch_size", Sup.batch_size), (n!"constraint_faf", Sup.faf), (n!"constraint_faf_type", Sup.faf_type),
     (n!"constraint_stride_range", Sup.stride_range), (n!"constraint_dilated_height_range", Sup.dilated_height_range),
     (n!"constraint_dilated_product_range", Sup.dilated_product_range), (n!"constraint_weights_type", Sup.weights_type),
-    (n!"constraint_weights_const", Sup.weights_const), (n!"constraint_weights_limit", Sup.weights_limit),
+    (n!"constraint_weights_const", Sup.weights_const), (n!"constraint_weights_symmetric", Sup.weights_symmetric), (n!"constraint_weights_limit", Sup.weights_limit),
     (n!"constraint_bias_shape", Sup.bias_shape), (n!"constraint_bias_type", Sup.bias_type),
     (n!"constraint_bias_40bit", Sup.bias_40bit), (n!"constraint_depth_multiplier", Sup.depth_multiplier),
     (n!"constraint_stride_width_no_upper_limit", Sup.stride_width_no_upper_limit),
